@@ -240,6 +240,62 @@ Lemma nodup_nil : NoDup (keys []). Proof. constructor. Qed.
 Lemma nodup_single k v : NoDup (keys [(k, v)]). Proof. constructor; [intros [] | constructor]. Qed.
 
 (* ------------------------------------------------------------------ *)
+(* insertion order of dict.update                                       *)
+
+Definition addkey (ks : list Z) (k : Z) : list Z := if mem k ks then ks else ks ++ [k].
+Definition addkeys (l ks : list Z) : list Z := fold_left addkey l ks.
+
+Lemma keys_mset k v m : keys (mset k v m) = addkey (keys m) k.
+Proof.
+  unfold addkey. induction m as [|[k2 v2] r IH]; cbn [mset keys map fst]; [reflexivity|].
+  rewrite mem_cons. destruct (Z.eqb_spec k k2) as [->|Hne]; cbn [keys map fst orb]; [reflexivity|].
+  unfold keys in IH. rewrite IH. destruct (mem k (map fst r)); reflexivity.
+Qed.
+
+Lemma keys_update_all ps : forall m, keys (update_all ps m) = addkeys (keys ps) (keys m).
+Proof.
+  induction ps as [|[k v] ps IH]; intros m; [reflexivity|]. cbn [update_all fold_left fst snd keys map addkeys].
+  change (fold_left (fun acc p => mset (fst p) (snd p) acc) ps ?x) with (update_all ps x).
+  rewrite IH, keys_mset. reflexivity.
+Qed.
+
+Lemma mem_addkey x ks k : mem x (addkey ks k) = mem x ks || (x =? k).
+Proof.
+  unfold addkey. destruct (mem k ks) eqn:E.
+  - destruct (Z.eqb_spec x k) as [->|]; [rewrite E; reflexivity | rewrite orb_false_r; reflexivity].
+  - rewrite mem_app, mem_cons, mem_nil, orb_false_r. reflexivity.
+Qed.
+
+Lemma mem_addkeys x l : forall ks, mem x (addkeys l ks) = mem x ks || mem x l.
+Proof.
+  induction l as [|k l IH]; intros ks; cbn [addkeys fold_left]; [rewrite mem_nil, orb_false_r; reflexivity|].
+  change (fold_left addkey l ?a) with (addkeys l a). rewrite IH, mem_addkey, mem_cons.
+  destruct (mem x ks), (x =? k), (mem x l); reflexivity.
+Qed.
+
+Lemma addkeys_app l1 l2 ks : addkeys (l1 ++ l2) ks = addkeys l2 (addkeys l1 ks).
+Proof. unfold addkeys. apply fold_left_app. Qed.
+
+(* updating with the dict built from the pairs inserts the same keys in the same order as updating with the pairs *)
+Lemma addkeys_cons x l ks : addkeys (x :: l) ks = addkeys l (addkey ks x).
+Proof. reflexivity. Qed.
+
+Lemma addkeys_via_dict l : forall acc ks, addkeys (addkeys l acc) ks = addkeys (acc ++ l) ks.
+Proof.
+  induction l as [|x l IH]; intros acc ks; [rewrite app_nil_r; reflexivity|].
+  rewrite addkeys_cons, IH. unfold addkey. destruct (mem x acc) eqn:E.
+  - rewrite !addkeys_app, addkeys_cons. f_equal. unfold addkey.
+    rewrite mem_addkeys, E, orb_true_r. reflexivity.
+  - rewrite <- app_assoc. reflexivity.
+Qed.
+
+Lemma keys_update_via_dict vps m : keys (update_all (update_all vps []) m) = keys (update_all vps m).
+Proof.
+  rewrite (keys_update_all (update_all vps []) m), (keys_update_all vps []), (keys_update_all vps m).
+  cbn [keys map]. rewrite addkeys_via_dict. reflexivity.
+Qed.
+
+(* ------------------------------------------------------------------ *)
 (* the loop of update / __ior__                                         *)
 
 Section Update.
@@ -551,10 +607,28 @@ Section Main.
     - cbn. f_equal. apply IH. exact H.
   Qed.
 
+  Lemma do_update_order m a ps bo ba br :
+    match validate_pairs kv vv (items_of a ps) with
+    | Some vps => (Ok, update_all vps m, RNone)
+    | None => (Raise TraitError, m, RNone)
+    end = (bo, ba, br) ->
+    list_eqb Z.eqb (keys (o_after (do_update kv vv tgt m a ps))) (keys ba) = true.
+  Proof.
+    intros Hb. unfold do_update. rewrite upd_loop_validated.
+    destruct (validate_pairs kv vv (items_of a ps)) as [vps|]; injection Hb as <- <- <-; [|apply zlist_refl].
+    destruct (acc_loop m vps [] [] []) as [[vd ad] ch] eqn:Ea.
+    destruct (acc_loop_inv m vps _ _ _ _ _ _ (loop_inv_init m) Ea) as [_ ->].
+    destruct (mempty ad && mempty ch); cbn [ok mk o_after]; rewrite keys_update_via_dict; apply zlist_refl.
+  Qed.
+
   Theorem step_order m o : order_ok kv vv m o (step m o) = true.
   Proof.
-    unfold order_ok. destruct o as [k v|k|a ps|a ps|k v|k d| | |a ps]; cbn [Model.step builtin order_checked negb orb];
-      try reflexivity; try rewrite ctor_loop_validated; unfold store, has;
+    unfold order_ok. destruct o as [k v|k|a ps|a ps|k v|k d| | |a ps]; cbn [Model.step builtin];
+      try (destruct (match validate_pairs kv vv (items_of a ps) with
+                     | Some vps => (Ok, update_all vps m, RNone)
+                     | None => (Raise TraitError, m, RNone)
+                     end) as [[bo ba] br] eqn:Eb; eapply do_update_order; exact Eb);
+      try rewrite ctor_loop_validated; unfold store, has;
       repeat (match goal with
               | |- context [match ?x with _ => _ end] =>
                   match type of x with
